@@ -11,7 +11,7 @@ package main
 //
 // with expressions: string literals, fields of a / t.SSHArgs / t, fmt.Sprintf with %d / %s verbs,
 // int(a.TimeoutSocket.Seconds()); conditions: x != "", x == "", boolean fields, !c, len(x) > 0,
-// len(x) == 0. Anything else is rendered as an undefined identifier `unsupported_…`, which makes
+// len(x) == 0. Anything else is rendered as a typed placeholder `SshCfg.unsupported…`, which makes
 // the generated file (and with it the C14 obligations) fail to check — deliberately.
 
 import (
@@ -29,9 +29,21 @@ type c14tr struct {
 	n int
 }
 
+// unsupported renders a construct outside the statement language as a typed placeholder
+// (SshCfg.unsupported{S,L,I,B}): the generated file keeps compiling — other properties' drivers
+// link against it — while generated_buildOpenArgs_eq can no longer be proved.
 func (t *c14tr) unsupported(what string, n ast.Node) string {
 	t.n++
-	return fmt.Sprintf("unsupported_%s_%d", what, t.n)
+	tag := fmt.Sprintf("%q", fmt.Sprintf("%s_%d", what, t.n))
+	switch what {
+	case "int":
+		return "(SshCfg.unsupportedI " + tag + ")"
+	case "string", "format", "verb", "format_args", "field":
+		return "(SshCfg.unsupportedS " + tag + ")"
+	case "condition":
+		return "(SshCfg.unsupportedB " + tag + " = true)"
+	}
+	return "(SshCfg.unsupportedL " + tag + ")"
 }
 
 var c14ArgsFields = map[string]string{"Host": "a.host", "Port": "a.port", "User": "a.user", "Password": "a.password"}
@@ -309,14 +321,14 @@ func genSshArgv() string {
 	b.WriteString("/-- `(*System).buildOpenArgs`: `o` is `t.OpenArgs` on entry, the result is `t.OpenArgs` on exit -/\n")
 	b.WriteString("def buildOpenArgs (a : SshCfg.Args) (s : SshCfg.SSHArgs) (extra : List Bytes) (o : List Bytes) : List Bytes :=\n")
 	if fd == nil {
-		b.WriteString("  unsupported_function_not_found\n")
+		b.WriteString("  SshCfg.unsupportedL \"function_not_found\"\n")
 	} else {
 		t := &c14tr{}
 		ok := fd.Recv.NumFields() == 1 && len(fd.Recv.List[0].Names) == 1 && fd.Recv.List[0].Names[0].Name == "t" &&
 			fd.Type.Params.NumFields() == 1 && len(fd.Type.Params.List[0].Names) == 1 && fd.Type.Params.List[0].Names[0].Name == "a" &&
 			(fd.Type.Results == nil || fd.Type.Results.NumFields() == 0)
 		if !ok {
-			b.WriteString("  let o := unsupported_signature\n")
+			b.WriteString("  let o := SshCfg.unsupportedL \"signature\"\n")
 		}
 		b.WriteString(t.block(fd.Body.List, "  "))
 		b.WriteString("  o\n")
